@@ -91,6 +91,9 @@ structure Row where
   leaves : List Leaf
   /-- unit of a unit-carrying out= buffer after the call -/
   outLabel : Option (List (String × Expo))
+  /-- the result has one copy of the LAST leaf per row/axis of an operand (their number depends on the
+      shape): `leaves = [h, r]` stands for `h, r, r, …` -/
+  tailRepeats : Bool
   /-- instances (shapes × dtypes × seeds) the row summarises -/
   n : Nat
   deriving Repr, Inhabited
